@@ -5,6 +5,7 @@
 package c03
 
 import (
+	"errors"
 	"crypto/ecdsa"
 	"crypto/elliptic"
 	"crypto/rand"
@@ -42,9 +43,23 @@ func (r *RecSigner) SigInfo() (*ndn.SigConfig, error) {
 	return c, err
 }
 func (r *RecSigner) EstimateSize() uint { return r.Inner.EstimateSize() }
+// FailEntropy: while set, crypto/rand.Reader is replaced by a reader that always fails for the
+// duration of the signer's ComputeSigValue call only (other users of crypto/rand, e.g. rand.Read in
+// the nonce generator, abort the process on a failing reader and are left alone).
+var FailEntropy bool
+
+type failingReader struct{}
+
+func (failingReader) Read([]byte) (int, error) { return 0, errors.New("entropy source unavailable") }
+
 func (r *RecSigner) ComputeSigValue(w enc.Wire) ([]byte, error) {
 	r.Covered = append([]byte{}, w.Join()...)
 	r.Handed = true
+	if FailEntropy {
+		old := rand.Reader
+		rand.Reader = failingReader{}
+		defer func() { rand.Reader = old }()
+	}
 	v, err := r.Inner.ComputeSigValue(w)
 	r.Value = append([]byte{}, v...)
 	return v, err
@@ -110,6 +125,14 @@ var signerCache = map[string]ndn.Signer{}
 
 func ResetSigners() { signerCache = map[string]ndn.Signer{} }
 
+// SigBase strips the "@keyname" and ":params" parts of a signer token.
+func SigBase(tok string) string {
+	if i := strings.IndexByte(tok, '@'); i >= 0 {
+		tok = tok[:i]
+	}
+	return strings.SplitN(tok, ":", 2)[0]
+}
+
 func signerFor(tok string) ndn.Signer {
 	if tok == "none" {
 		return nil
@@ -126,6 +149,12 @@ func signerFor(tok string) ndn.Signer {
 //
 //	none sha shaint hmac hmaccert hmacint ecc ecccert eccint rsa rsacert rsaint empty t:<est>:<len>
 func NewSigner(tok string) ndn.Signer {
+	// "<signer>@<name>": the key locator name of the signer (default /k/KEY/1)
+	KeyName := KeyName
+	if i := strings.IndexByte(tok, '@'); i >= 0 {
+		KeyName = common.ParseNameText(tok[i+1:])
+		tok = tok[:i]
+	}
 	switch tok {
 	case "none":
 		return nil
